@@ -7,15 +7,22 @@
    own trace) says: what a cursor pops is a contiguous, duplicate-free, in-order run of the pushed sequence, never a
    wrong record, and a gap is always reported as an error.
 3. Process level: real slock binaries (leader + follower through harness/repl/cmd/faultproxy), connection cuts in
-   both phases, follower's append files compared record by record with the leader's.
+   both phases, follower's append files compared record by record with the leader's (one scenario on a rotated log).
+4. Publication order (Handover.v): the variant of the lock hand-over in Aof.PushLock is read off the source text; a stress
+   run on a real in-process node (concurrent PushLock calls, directly and through the shards' AofChannel goroutines, with
+   rotation) compares the order of (AofIndex, AofOffset) in the ring with the order in the append files.
+5. Full transfer on rotated logs (Transfer.v): the variant of the boundary test in sendFiles is read off the source text;
+   the real sendFiles runs on generated rotated (and compacted) logs for every boundary and is compared with the
+   extracted Transfer.send_files; the monitor says: what is sent is exactly the persisted records below the boundary.
 """
-import json, os, re, shutil, signal, socket, struct, subprocess, sys, time
+import json, os, re, shutil, signal, socket, struct, subprocess, sys, tempfile, time
 
 from tools import vlib
 
 MANIFEST = {
     "property": "C09",
-    "coq": ["Repl/Ring.v", "Repl/Sync.v", "Repl/ReplProofs.v", "Repl/SyncProofs.v", "Properties/C09.v"],
+    "coq": ["Repl/Ring.v", "Repl/Sync.v", "Repl/ReplProofs.v", "Repl/SyncProofs.v", "Repl/Transfer.v", "Repl/Handover.v",
+            "Properties/C09.v"],
     "harness": "harness/repl",
     "model": "ocaml/repl",
 }
@@ -375,6 +382,16 @@ def ring_part(ctx, impl, model, ncases, cov, flags):
 
 # ------------------------------------------------------------------------------------------------ process level
 def parse_dir(d):
+    """parse_dir_once, repeated while the node's background compaction renames / removes files under the reader"""
+    for _ in range(40):
+        try:
+            return parse_dir_once(d)
+        except FileNotFoundError:
+            time.sleep(0.05)
+    return parse_dir_once(d)
+
+
+def parse_dir_once(d):
     """All records of rewrite.aof + append.aof.N in file order:
     [(id = (file index, offset, command time), 64 record bytes with the REWRITED bit cleared, value frame or None)]."""
     files = []
@@ -410,6 +427,10 @@ def parse_dir(d):
         if p != len(b):
             recs.append((("torn", f, len(b) - p), b"", None))
     return recs
+
+
+def lid_all(L):
+    return [r[0] for r in (L or []) if isinstance(r[0][0], int)]
 
 
 def monitor_proc(L, F):
@@ -522,6 +543,8 @@ class Scenario:
                     bidx, boff = int(fin[-1][0], 16), int(fin[-1][1], 16)
                     if all((i[0], i[1]) < (bidx, boff) for i in m[2]) and len(m[2]) <= 64:
                         cause = "within-completed-file-transfer"
+                    elif all((i[0], i[1]) < (bidx, boff) for i in m[2]) and len({i[0] for i in lid_all(L)}) > 1:
+                        cause = "full-transfer-of-rotated-log-ended-early"
             if m:
                 m = m[:2]
             llog = open(d + "/leader.log").read() if os.path.exists(d + "/leader.log") else ""
@@ -569,6 +592,9 @@ def proc_part(ctx, bins, thorough, cov, flags):
         # fresh leader (empty ring) + slow link during the handshake + ring small enough to overflow meanwhile
         dict(name="empty-ring-slow-handshake-overflow", cuts="-1", pre=0, during=120, post=20, delay_started=2500, unlock=0, data=0,
              sleep_us=2000, extra=["--aof_ring_buffer_size", "1024", "--aof_ring_buffer_max_size", "1024"]),
+        # full transfer of a rotated log (128 records per append file, nothing unlocked so that compaction keeps every record): the
+        # boundary is in the third file, the older files hold larger offsets
+        dict(name="rotated-log-full-transfer", cuts="-1", pre=300, during=60, post=40, unlock=0, extra=["--aof_file_rewrite_size", "8192"]),
     ]
     if thorough:
         for i in range(24):
@@ -636,6 +662,211 @@ def proc_part(ctx, bins, thorough, cov, flags):
     return len(results)
 
 
+# ------------------------------------------------------------------------------------------------ publication order (Handover.v)
+def parse_kv(line):
+    return dict(t.split("=", 1) for t in line.split()[1:] if "=" in t)
+
+
+def stress_part(ctx, impl, thorough, cov, flags):
+    """Concurrent Aof.PushLock on a real node; monitor = the ring holds the records in append-file order."""
+    r = ctx.rng
+    runs = [("direct", 8, 2000, 4, None), ("db", 8, 1000, 4, 262144)]
+    for _ in range(12 if thorough else 1):
+        g = r.choice([2, 3, 4, 8, 16])
+        mode = r.choice(["direct", "db"])
+        runs.append((mode, g, r.choice([500, 1500, 3000]), r.choice([1, 2, 4, 8]), r.choice([None, 65536, 262144]) if mode == "db" else None))
+    base = tempfile.mkdtemp(prefix="c09-stress-", dir="/tmp")
+    rows, bad = [], []
+    t0 = time.time()
+    try:
+        for i, (mode, g, rounds, per, rw) in enumerate(runs):
+            d = os.path.join(base, "n%d" % i, "data")
+            cmd = [impl, "stress", d, mode, str(g), str(rounds), str(per), "4000"] + ([str(rw)] if rw else [])
+            try:
+                out = subprocess.run(cmd, stdout=subprocess.PIPE, stderr=subprocess.STDOUT, timeout=120).stdout.decode("utf-8", "replace").splitlines()
+            except subprocess.TimeoutExpired:
+                out = ["<timeout>"]
+            line = next((l for l in out if l.startswith("stress ")), None)
+            if line is None:
+                bad.append(("pushlock:stress-run-failed", "the stress scenario did not complete", {"cmd": " ".join(cmd), "output": out[-12:]}, False))
+                continue
+            kv = parse_kv(line)
+            row = {k: kv.get(k) for k in ("mode", "goroutines", "rounds", "per_round", "records_ring", "records_file", "inversions", "max_back",
+                                          "file_order_equals_ring_order", "file_index", "elapsed_ms")}
+            rows.append(row)
+            first = next((l for l in out if l.startswith("first-inversion")), "")
+            if int(kv["inversions"]) > 0 or kv["file_order_equals_ring_order"] != "true":
+                bad.append(("pushlock:ring-order-differs-from-file-order",
+                            "%s records went through Aof.PushLock from %s goroutines (%s): the ring holds them in an order that differs from the append file "
+                            "(%s adjacent inversions, a record is published up to %s positions late) -- a live follower applies them reordered and a "
+                            "follower whose full transfer is bounded by a late head never receives the overtaken records"
+                            % (kv["records_ring"], kv["goroutines"], mode, kv["inversions"], kv["max_back"]),
+                            {"how": "build/c09-implrun stress <dir> %s %d %d %d 4000%s" % (mode, g, rounds, per, " %d" % rw if rw else ""),
+                             "observation": line, "first_inversion": first, "model": "Handover.hstep; C09_handover_swapped_refuted is the 2-shard schedule"}, True))
+            elif int(kv["records_ring"]) != int(kv["expected"]) or int(kv["records_file"]) != int(kv["expected"]):
+                bad.append(("pushlock:records-lost", "records pushed through Aof.PushLock are missing from the ring or the append files",
+                            {"how": " ".join(cmd), "observation": line}, True))
+    finally:
+        shutil.rmtree(base, ignore_errors=True)
+    cov["pushlock_stress"] = {"runs": rows, "time_s": round(time.time() - t0, 2),
+                              "records": sum(int(x["records_ring"] or 0) for x in rows),
+                              "runs_with_inversions": sum(1 for x in rows if int(x["inversions"] or 0) > 0)}
+    seen = set()
+    for sig, what, replay, found in bad:
+        if sig not in seen:
+            seen.add(sig)
+            ctx.violation(sig, what, replay, found_input=found)
+    exhibited = any(sig == "pushlock:ring-order-differs-from-file-order" for sig, _, _, _ in bad)
+    if not flags["handover"] and not exhibited:
+        ctx.violation("tie:pushlock-handover", "Aof.PushLock releases aofGlock before it takes replGlock: ring order = file order (assumed by Sync.v, proved for "
+                      "the hand-over in C09_handover_ring_is_file) is refuted for this statement order by C09_handover_swapped_refuted; the stress "
+                      "scenario did not exhibit it in its time budget", {"broken": "C09_handover_ring_is_file", "refutation": "C09_handover_swapped_refuted",
+                                                                        "stress": rows}, found_input=False)
+    return len(rows), {"%s/%s/%s" % (x["mode"], x["goroutines"], x["file_index"]) for x in rows}
+
+
+# ------------------------------------------------------------------------------------------------ full transfer on rotated logs (Transfer.v)
+def gen_transfer_case(r, small=False):
+    """ops: L lock a fresh key, U unlock the oldest held key, R the next record rotates the append file."""
+    nfiles = r.choice([1, 2, 2, 3, 3, 4] if not small else [2, 3])
+    ops = []
+    for f in range(nfiles):
+        n = r.choice([1, 2, 3, 5, 8, 13] if not small else [1, 2, 3, 4])
+        for k in range(n):
+            if f < nfiles - 1 and k == n - 1:
+                ops.append("R")
+            ops.append("U" if ops.count("L") > ops.count("U") and r.random() < 0.15 else "L")
+    return "ops " + " ".join(ops)
+
+
+def lex_below(disk, b):
+    return [x for x in disk if x < b]
+
+
+def run_transfer(impl, case, base, n):
+    d = os.path.join(base, "t%d" % n, "data")
+    p = subprocess.run([impl, "transfer", d], input=(case + "\nb all\n").encode(), stdout=subprocess.PIPE, stderr=subprocess.STDOUT, timeout=120)
+    out = p.stdout.decode("utf-8", "replace").splitlines()
+    shutil.rmtree(os.path.dirname(d), ignore_errors=True)
+    disk, sent, node = None, [], ""
+    for l in out:
+        if l.startswith("disk "):
+            disk = [tuple(int(v) for v in t.split(":")[:2]) for t in l.split()[1:]]
+        elif l.startswith("disk"):
+            disk = []
+        elif l.startswith("node "):
+            node = l
+        elif l.startswith("sent "):
+            h, ids, tail = [x.strip() for x in l[5:].split(";")]
+            sent.append((tuple(int(v) for v in h.split(":")), ids.split(), tail))
+    return disk, sent, node, out
+
+
+def transfer_monitor(disk, b, ids, tail):
+    """what sendFiles wrote for boundary b is exactly the persisted records below b, then the end marker"""
+    want = ["%d:%d" % x for x in lex_below(disk, b)]
+    if tail != "marker=1 trailing=0 err=-":
+        return "bad-stream", want
+    if ids == want:
+        return None, want
+    if ids == want[:len(ids)]:
+        return "stops-early", want
+    if want == ids[:len(want)]:
+        return "sends-beyond-boundary", want
+    return "wrong-records", want
+
+
+def transfer_part(ctx, impl, model, thorough, cov, flags):
+    r = ctx.rng
+    cases = []
+    cdir = os.path.join(vlib.VERIF, "corpus", "C09")
+    for f in sorted(os.listdir(cdir)) if os.path.isdir(cdir) else []:
+        if f.endswith(".xfer"):
+            cases += [l.strip() for l in open(os.path.join(cdir, f)) if l.strip() and not l.startswith("#")]
+    ncorpus = len(cases)
+    for _ in range(120 if thorough else 10):
+        cases.append(gen_transfer_case(r))
+    variant = "lex" if flags["bound_lex"] else "off"
+    base = tempfile.mkdtemp(prefix="c09-xfer-", dir="/tmp")
+    t0 = time.time()
+    nb = ndiff = 0
+    shapes = set()
+    hits = {}
+    stats = {"cases": len(cases), "corpus_cases": ncorpus, "boundaries": 0, "rotated_logs": 0, "compacted_logs": 0, "max_files": 0,
+             "boundaries_in_older_file_with_larger_offsets_below": 0}
+    try:
+        for n, case in enumerate(cases):
+            disk, sent, node, out = run_transfer(impl, case, base, n)
+            if disk is None or not sent:
+                ctx.violation("transfer:harness-run-failed", "the in-process full-transfer scenario did not complete",
+                              {"case": case, "output": out[-10:]}, found_input=False)
+                continue
+            files = sorted({x[0] for x in disk})
+            stats["rotated_logs"] += 1 if len(files) > 1 else 0
+            stats["compacted_logs"] += 1 if "rewrite.aof=" in node else 0
+            stats["max_files"] = max(stats["max_files"], len(files))
+            shapes.add(tuple(sum(1 for x in disk if x[0] == i) for i in files))
+            lines = ["%s ; %s ; %d:%d" % (variant, " ".join("%d:%d" % x for x in disk), b[0], b[1]) for b, _, _ in sent]
+            mo = run_lines(model, lines, 60, args=["transfer"])
+            for k, (b, ids, tail) in enumerate(sent):
+                nb += 1
+                if any(x[0] < b[0] and x[1] >= b[1] for x in disk):
+                    stats["boundaries_in_older_file_with_larger_offsets_below"] += 1
+                kind, want = transfer_monitor(disk, b, ids, tail)
+                m = mo[k].split() if k < len(mo) else ["<missing>"]
+                if m != ids:
+                    ndiff += 1
+                if kind or m != ids:
+                    hits.setdefault(kind or "model-differs", []).append((case, b, ids, want, m, tail, disk))
+    finally:
+        shutil.rmtree(base, ignore_errors=True)
+    stats["boundaries"] = nb
+    for kind, hs in sorted(hits.items()):
+        case, b, ids, want, m, tail, disk = min(hs, key=lambda h: (len(h[0]), len(h[3])))
+        # shrink: drop ops while the same kind of failure persists for some boundary
+        ops = case.split()[1:]
+        base2 = tempfile.mkdtemp(prefix="c09-xfer-", dir="/tmp")
+        try:
+            def failing(opl):
+                disk, sent, _, _ = run_transfer(impl, "ops " + " ".join(opl), base2, 0)
+                if disk is None:
+                    return None
+                for bb, ii, tt in sent:
+                    kk, ww = transfer_monitor(disk, bb, ii, tt)
+                    if kk == kind:
+                        return (bb, ii, ww, tt, disk)
+                return None
+            if kind != "model-differs":
+                i = len(ops) - 1
+                while i >= 0:
+                    cand = ops[:i] + ops[i + 1:]
+                    if cand and failing(cand):
+                        ops = cand
+                    i -= 1
+                got = failing(ops)
+                if got:
+                    b, ids, want, tail, disk = got
+                    case = "ops " + " ".join(ops)
+        finally:
+            shutil.rmtree(base2, ignore_errors=True)
+        rotated = len({x[0] for x in disk} | {b[0]}) > 1      # records and boundary not all in one file
+        sig = "transfer:%s:%s" % (kind, "rotated-log" if rotated else "single-file")
+        found = kind != "model-differs"
+        ctx.violation(sig, "full transfer with boundary %d/%d on the persisted log of `%s`: sendFiles sent %d record(s) %s, the records below the boundary are %d %s "
+                      "(%d boundaries of %d logs show this)" % (b[0], b[1], case, len(ids), ids[:6], len(want), want[:8], len(hs), len({h[0] for h in hs})),
+                      {"case": case, "boundary": list(b), "sent": ids, "records_below_boundary": want, "model": m, "stream": tail,
+                       "how": "printf '%s\\nb all\\n' | build/c09-implrun transfer <dir>/data" % case,
+                       "model_variant": variant, "theorem": "C09_transfer_then_live_is_log / C09_transfer_offset_only_refuted"}, found_input=found)
+    if not flags["bound_lex"] and not any(k != "model-differs" for k in hits):
+        ctx.violation("tie:sendfiles-boundary", "the boundary test of sendFiles is not the lexicographic (index, offset) comparison: C09_transfer_then_live_is_log does "
+                      "not apply, C09_transfer_offset_only_refuted does; no failing log was generated", {"broken": "C09_transfer_then_live_is_log"}, found_input=False)
+    stats["model_impl_diffs"] = ndiff
+    stats["time_s"] = round(time.time() - t0, 2)
+    stats["log_shapes"] = sorted(shapes)[:40]
+    cov["transfer"] = stats
+    return nb, {("xfer",) + sh for sh in shapes}
+
+
 def func_body(src, header):
     """Text of a top-level Go function whose declaration starts with `header` (up to the next top-level 'func ')."""
     i = src.find(header)
@@ -680,6 +911,33 @@ def source_cfg():
     flags["early_id"] = re.search(r"self\.currentAofId\[15\]\s*=\s*aofId\[0\]", tail) is not None
     if "return self.recvFiles()" not in tail:
         problems.append("InitSync full branch")
+    # Aof.PushLock: the two statements between `self.aofLockCount++` and the ring push (Handover.v: handover / swapped)
+    asrc = open(os.path.join(vlib.REPO, "server", "aof.go")).read()
+    push = func_body(asrc, "func (self *Aof) PushLock(")
+    flags["handover"] = True
+    m = re.search(r"self\.aofLockCount\+\+\s*\n(.*?)\n[^\n]*replicationManager\.PushLock\(", push or "", flags=re.S)
+    stm = [l.strip() for l in m.group(1).splitlines() if l.strip() and not l.strip().startswith("//")] if m else None
+    after = re.search(r"replicationManager\.PushLock\([^\n]*\n\s*self\.replGlock\.Unlock\(\)", push or "")
+    first = re.search(r"PushLock\([^)]*\) error \{\s*\n\s*self\.aofGlock\.Lock\(\)", push or "")
+    if stm == ["self.replGlock.Lock()", "self.aofGlock.Unlock()"] and after and first:
+        flags["handover"] = True
+    elif stm == ["self.aofGlock.Unlock()", "self.replGlock.Lock()"] and after and first:
+        flags["handover"] = False
+    else:
+        problems.append("Aof.PushLock lock hand-over (statements between aofLockCount++ and the ring push: %r)" % (stm,))
+    # sendFiles: the boundary test of the closure handed to LoadAofFiles (Transfer.v: CmpLex / CmpOffOnly)
+    sf = func_body(src, "func (self *ReplicationServer) sendFiles(")
+    flags["bound_lex"] = True
+    m = re.search(r"LoadAofFiles\([^\n]*\{\s*\n\s*if (.*?) \{\s*\n\s*return false, nil", sf or "")
+    cond = re.sub(r"\s+", " ", m.group(1)).strip() if m else None
+    lex = "lock.AofIndex > self.waofLock.AofIndex || (lock.AofIndex == self.waofLock.AofIndex && lock.AofOffset >= self.waofLock.AofOffset)"
+    offonly = "lock.AofIndex > self.waofLock.AofIndex || lock.AofOffset >= self.waofLock.AofOffset"
+    if cond == lex:
+        flags["bound_lex"] = True
+    elif cond == offonly:
+        flags["bound_lex"] = False
+    else:
+        problems.append("sendFiles boundary test (%r)" % (cond,))
     return flags, problems
 
 
@@ -707,31 +965,52 @@ def run(ctx):
         if not okc:
             ctx.violation("proof:coqchk", "coqchk rejects the compiled C09 cone", {"log": outc[-2000:]}, found_input=False)
     flags, problems = source_cfg()
-    ctx.obligation("model switches can be read off server/replication.go (Pop, AddPoll/RemovePoll, sendSyncCommand, InitSync)",
-                   not problems, "; ".join(problems))
+    ctx.obligation("model switches can be read off server/replication.go (Pop, AddPoll/RemovePoll, sendSyncCommand, InitSync, sendFiles) and "
+                   "server/aof.go (Aof.PushLock)", not problems, "; ".join(problems))
     if problems:
         ctx.violation("tie:source-cfg", "the source patterns that select the model configuration are gone: " + "; ".join(problems),
                       {"broken": "source_cfg", "problems": problems}, found_input=False)
-        flags = flags or {"fresh_exempt": True, "poll_freed": True, "keep_aoflock": True, "early_id": True}
+        flags = flags or {"fresh_exempt": True, "poll_freed": True, "keep_aoflock": True, "early_id": True, "handover": True, "bound_lex": True}
     cov["source_cfg"] = flags
+    # Sync.v takes "ring order = append-file order" and the lexicographic sendFiles bound for granted: both are theorems about the
+    # source variant found above (Handover.v, Transfer.v); for the other variant the refutation applies and a failing input is searched below
+    ctx.obligation("Aof.PushLock hands over aofGlock -> replGlock (ring order = file order: C09_handover_ring_is_file applies, assumed by Sync.v)",
+                   flags["handover"], "" if flags["handover"] else "statement order is Unlock(aofGlock); Lock(replGlock): C09_handover_swapped_refuted applies")
+    ctx.obligation("sendFiles bounds the full transfer by the lexicographic (AofIndex, AofOffset) test (C09_transfer_then_live_is_log applies, = Sync.l_send_file)",
+                   flags["bound_lex"], "" if flags["bound_lex"] else "offset-only test: C09_transfer_offset_only_refuted applies")
     cov["applicable_theorems"] = (
         ["C09_sync_prefix_fixed (all schedules, no guard)"] if not (flags["early_id"] or flags["keep_aoflock"] or flags["fresh_exempt"])
         else ["C09_sync_prefix_guarded (schedules outside the defect windows)"]
              + (["C09_sync_F1_refuted"] if flags["early_id"] else []) + (["C09_sync_F2_refuted"] if flags["fresh_exempt"] else [])
              + (["C09_sync_F3_refuted"] if flags["keep_aoflock"] else [])) + \
         ["C09_ring_pop_refines" + ("" if not flags["poll_freed"] else " (guard addpoll_safe)")] + \
-        (["C09_ring_R1_refuted"] if flags["poll_freed"] else [])
+        (["C09_ring_R1_refuted"] if flags["poll_freed"] else []) + \
+        (["C09_handover_ring_is_file", "C09_handover_full_transfer_gapfree"] if flags["handover"] else ["C09_handover_swapped_refuted"]) + \
+        (["C09_transfer_then_live_is_log", "C09_transfer_sync_leader"] if flags["bound_lex"]
+         else ["C09_transfer_offset_only_single_file (guard: no rotation)", "C09_transfer_offset_only_refuted"])
     impl = ctx.go_build("c09-implrun", os.path.join(vlib.VERIF, "harness", "repl"),
-                        overlay={"server/zz_verif_repl.go": "harness/repl/inj/zz_verif_repl.go"})
+                        overlay={"server/zz_verif_repl.go": "harness/repl/inj/zz_verif_repl.go",
+                                 "server/zz_verif_repl_node.go": "harness/repl/inj/zz_verif_repl_node.go"})
     model = ctx.ocaml_model("repl")
     n = 4000 if thorough else 400
     neval, ndist, samples = ring_part(ctx, impl, model, n, cov, flags)
+    ns, ds = stress_part(ctx, impl, thorough, cov, flags)
+    nx, dx = transfer_part(ctx, impl, model, thorough, cov, flags)
+    neval += ns + nx
+    ndist += len(ds) + len(dx)
     ctx.trusted += [
         "extraction: ExtrOcamlBasic only (N/positive/nat as Coq datatypes); ocaml/repl/driver.ml (hex printing, op parsing)",
         "harness/repl/inj/zz_verif_repl.go: two cursor manipulations are transcribed from ReplicationServer rather than called: "
         "op W = replication.go:1431-1432 (writed=true; pollIndex++), op Y = replication.go:1225-1246 (handleInitSync with an id)",
         "Ring.v represents the two linked lists as Coq lists of items with pointer identities; Push is modelled without the 10 ms glock.Wait "
         "(manager == nil in the harness)",
+        "Handover.v (interleavings of Aof.PushLock: two mutexes, append with optional rotation, ring push) is a hand transcription; tied by the "
+        "variant switch read from the statement order in the source text and by the publication-order monitor on the real node "
+        "(harness/repl/inj/zz_verif_repl_node.go stress: real Aof.PushLock / AofChannel / ReplicationBufferQueue); sync.Mutex is modelled as an "
+        "owner field (no fairness, no spinning), a blocked goroutine as a stuttering step",
+        "Transfer.send_files (take-while over the persisted records in load order) vs the real sendFiles + LoadAofFiles on real rotated and "
+        "compacted files: differential on every generated log and boundary (extraction, ocaml/repl/driver.ml transfer mode); the boundary is "
+        "written into waofLock by the harness instead of by handleInitSync; expiry filter of LoadAofFile not exercised (unlimited holds)",
     ]
     bins = {"slock": ctx.go_build("c09-slock", os.path.join(vlib.VERIF, "harness", "repl"), pkg="./cmd/slock", tags="",
                                   overlay={os.path.join(vlib.VERIF, "harness/repl/cmd/slock/main.go"): os.path.join(vlib.REPO, "main.go")}),
